@@ -160,6 +160,19 @@ def search(ctx, budget):
         bad = depth_oracle(size, text, out)
         if bad:
             ctx.failures.append(({'stage': 'pre', 'size': size, 'text': text, 'observed': out}, bad))
+    # instances of C12_staircase_of_any_height: any height, any widths - the output is given by a formula
+    sj = []
+    for h in [2, 3, 10, 21, 40, 51, 64, 100, 150] + [ctx.rng.randint(2, 120) for _ in range(ctx.n(40, 1000) * budget)]:
+        widths, w = [0], 0
+        for _ in range(h - 1):
+            w += ctx.rng.choice([1, 1, 2, 2, 3, 4, 7]); widths.append(w)
+        words = [ctx.rng.choice(['x%d' % i, 'SEC %d' % i, 'a b', 'PART', '(a) word', '\u00e9t\u00e9', '* item']) for i in range(h)]
+        sj.append((ctx.rng.choice([1, 2, 3, 4]), ''.join(' ' * k + wd + '\n' for k, wd in zip(widths, words)), words))
+    for (size, text, words), out in zip(sj, impl.pmap(impl.pre_parse, [(a, b) for a, b, _ in sj], chunk=8)):
+        ctx.evaluations += 1; ctx.count('staircase_instances')
+        want = words[0] + '\n' + ''.join('\x0e\n' + wd + '\n' for wd in words[1:]) + '\x0f\n' * (len(words) - 1)
+        if out != want:
+            ctx.failures.append(({'stage': 'pre', 'size': size, 'text': text, 'observed': out}, 'a staircase of %d lines is not pre-parsed into %d nested blocks (C12_staircase_of_any_height)' % (len(words), len(words) - 1)))
     # metamorphic end-to-end
     docs = meta_cases(ctx, budget)
     jobs, index = [], []
@@ -218,7 +231,7 @@ LEVEL_TEXT = ('Proof on the Gallina model of pre_parse, for all texts over the a
               'equalities of pre_parse outputs and hence of everything downstream (C12_tab_is_spaces, C12_outer_whitespace_irrelevant); any number of '
               'spaces in front of any line break of any text changes nothing (C12_trailing_spaces_irrelevant); multiplying '
               'all indentation of a cleaned text by any constant k >= 1 gives the same pre-parsed text, because the indentation pass is invariant '
-              'under any strictly monotone renumbering of the levels (C12_indent_scaling). The model is tied to parser.py by the pre stage '
+              'under any strictly monotone renumbering of the levels (C12_indent_scaling); a staircase of any height and any widths - lines with strictly growing indentation - is pre-parsed into as many nested blocks, so there is no depth at which nesting stops and no width beyond which indentation is read differently (C12_staircase_of_any_height; instances of up to 150 levels run on the implementation). The model is tied to parser.py by the pre stage '
               '(exhaustive for short indentation sequences). Invariance under extra blank lines between lines is a property of the grammar (eol) '
               'and is decided end to end by metamorphic runs on the implementation, which also re-check the other transformations (partial).')
 LEVEL_NOTE = ('Trusted: Coq kernel, gen_tables_parser.py, hand model PreParse.v tied by differential run, extraction + driver. The nesting '
